@@ -421,6 +421,19 @@ class NPModel(NSModel):
         tab["linalg"] = self.linalg
         tab["random"] = I.Opaque("numpy.random")
 
+        def _as_array(ptr, shape=None):
+            # np.ctypeslib.as_array(pointer, shape): an array VIEW of the memory behind the pointer (no copy) — the pointer model carries that array
+            if not isinstance(ptr, CPtr):
+                raise _imp().Unsupported("np.ctypeslib.as_array of a value that is not a modelled pointer")
+            flat = ptr.arr.reshape(-1)
+            if shape is None:
+                return flat
+            n = int(np.prod([int(x) for x in (shape if isinstance(shape, (tuple, list)) else (shape,))]))
+            if n > flat.size:
+                raise _imp().Unsupported("np.ctypeslib.as_array beyond the modelled buffer")
+            return flat[:n].reshape(tuple(int(x) for x in (shape if isinstance(shape, (tuple, list)) else (shape,))))
+        tab["ctypeslib"] = NSModel("numpy.ctypeslib", {"as_array": B("np.ctypeslib.as_array", _as_array)})
+
     # ---- helpers
     def _dt(self, a):
         return dtype_of(to_array(a))
@@ -863,7 +876,13 @@ class NPModel(NSModel):
         if name == "astype":
             return B("ndarray.astype", lambda dt, copy=True, order=None: self.astype(a, dt, copy))
         if name == "view":
-            return B("ndarray.view", lambda *args: a.view())
+            def _view(*args):
+                # reinterpretation as another element type: object arrays carry no element width, so only the MEMORY IDENTITY is kept — a view of complex
+                # elements over a buffer of doubles is modelled as every second element (it shares memory with the buffer, as the real view does)
+                if args and isinstance(args[0], DType) and args[0].kind == "c" and a.ndim == 1 and a.size % 2 == 0:
+                    return a[::2]
+                return a.view()
+            return B("ndarray.view", _view)
         if name in ("sum", "prod", "mean", "max", "min", "all", "any"):
             return B("ndarray." + name, lambda axis=None, keepdims=False, **kw: self.reduce(name, a, axis, keepdims))
         if name == "dot":
@@ -937,7 +956,7 @@ def ctypes_model():
     ident = lambda name: B("ctypes." + name, lambda x=0: x)
     return NSModel("ctypes", {"c_void_p": ident("c_void_p"), "c_int": ident("c_int"), "c_double": ident("c_double"), "c_size_t": ident("c_size_t"),
                               "c_long": ident("c_long"), "c_char_p": ident("c_char_p"), "byref": B("ctypes.byref", lambda x: x),
-                              "POINTER": B("ctypes.POINTER", lambda t: t), "Structure": I.Opaque("ctypes.Structure"), "CDLL": I.Opaque("ctypes.CDLL")})
+                              "POINTER": B("ctypes.POINTER", lambda t: t), "cast": B("ctypes.cast", lambda p_, t_: p_), "Structure": I.Opaque("ctypes.Structure"), "CDLL": I.Opaque("ctypes.CDLL")})
 
 
 class MaskedSel(object):
